@@ -881,6 +881,11 @@ pub(crate) fn eval_tests(
     }
 
     for test in test_defs {
+        // Every test gets its own tick budget. Otherwise the verdict
+        // of a test depends on how many ticks the tests before it
+        // used, and everything after an infinite loop hits the limit.
+        env.ticks = 0;
+
         push_test_stackframe(test, env);
 
         match eval(env, session) {
